@@ -3,7 +3,7 @@
 from linear_operator.operators import MaskedLinearOperator
 
 from .. import settings
-from ..distributions import MultivariateNormal
+from ..distributions import MultitaskMultivariateNormal, MultivariateNormal
 from ..likelihoods import _GaussianLikelihoodBase
 from .marginal_log_likelihood import MarginalLogLikelihood
 
@@ -68,8 +68,12 @@ class ExactMarginalLogLikelihood(MarginalLogLikelihood):
         # Remove NaN values if enabled
         if settings.observation_nan_policy.value() == "mask":
             observed = settings.observation_nan_policy._get_observed(target, output.event_shape)
+            mean = output.mean
+            if isinstance(output, MultitaskMultivariateNormal) and not output._interleaved:
+                # the covariance is ordered task by task: flatten the mask, the mean and the targets the same way
+                observed, mean, target = observed.mT, mean.mT, target.mT
             output = MultivariateNormal(
-                mean=output.mean[..., observed],
+                mean=mean[..., observed],
                 covariance_matrix=MaskedLinearOperator(
                     output.lazy_covariance_matrix, observed.reshape(-1), observed.reshape(-1)
                 ),
